@@ -11,20 +11,52 @@ variable {P : Program} {H : List FuncHints} {h : FuncHints}
 /-- the frame with the current instruction removed from `rest` -/
 abbrev popI (fr0 : Frame) (rest : List Instr) : Frame := { fr0 with rest := rest }
 
-theorem testBit_defMask {f : Func} {blk : Nat} {bl : Block} {pre rest : List Instr}
-    (hb : f.blocks[blk]? = some bl) (hi : bl.instrs = pre ++ rest) (id : Nat) :
-    (Side.defMask (Side.defSets f) f blk pre.length).testBit id = true ↔ DefSet f blk pre id := by
+theorem testBit_rangeMask (n off id : Nat) : ((((1 <<< n) - 1) <<< off).testBit id = true) ↔ (off ≤ id ∧ id < off + n) := by
+  rw [Nat.testBit_shiftLeft, Nat.one_shiftLeft, Nat.testBit_two_pow_sub_one]
+  simp only [Bool.and_eq_true, decide_eq_true_eq, ge_iff_le]
+  omega
+
+theorem testBit_defMask {f : Func} {blk : Nat} {pre : List Instr} {offs : List Nat}
+    (hids : ∀ (k : Nat) (j : Instr), pre[k]? = some j → j.id = offs.getD blk 0 + k) (id : Nat) :
+    (Side.defMask (Side.defSets f) offs blk pre.length).testBit id = true ↔ DefSet f blk pre id := by
   unfold Side.defMask DefSet
-  simp only [hb, hi, List.take_left', Nat.testBit_or, Bool.or_eq_true]
-  rw [testBit_idMask]
-  simp
+  simp only [Nat.testBit_or, Bool.or_eq_true]
+  rw [testBit_rangeMask]
+  constructor
+  · rintro (hd | ⟨h1, h2⟩)
+    · exact Or.inl hd
+    · right
+      have hk : id - offs.getD blk 0 < pre.length := by omega
+      refine ⟨pre[id - offs.getD blk 0], List.getElem_mem hk, ?_⟩
+      rw [hids _ _ (List.getElem?_eq_getElem hk)]; omega
+  · rintro (hd | ⟨j, hj, hjid⟩)
+    · exact Or.inl hd
+    · right
+      obtain ⟨k, hk⟩ := List.getElem?_of_mem hj
+      have hlt : k < pre.length := by
+        rcases Nat.lt_or_ge k pre.length with h' | h'
+        · exact h'
+        · rw [List.getElem?_eq_none h'] at hk; cases hk
+      rw [← hjid, hids k j hk]; omega
+
+theorem ids_of_block {P : Program} {H : List FuncHints} {h : FuncHints} (F : Facts P H) {fi : Nat} {f : Func}
+    (hf : P.funcs[fi]? = some f) (hh : H[fi]? = some h) {blk : Nat} {bl : Block} {pre rest : List Instr}
+    (hb : f.blocks[blk]? = some bl) (hi : bl.instrs = pre ++ rest) :
+    ∀ (k : Nat) (j : Instr), pre[k]? = some j → j.id = (blockOffsets f.blocks 0).getD blk 0 + k := by
+  intro k j hk
+  have hlt : k < pre.length := by
+    rcases Nat.lt_or_ge k pre.length with h' | h'
+    · exact h'
+    · rw [List.getElem?_eq_none h'] at hk; cases hk
+  have hat : InstrAt f blk k j := ⟨bl, hb, by rw [hi, List.getElem?_append_left hlt]; exact hk⟩
+  exact (sInstr_spec (F.side fi f h hf hh blk k j hat)).id
 
 /-- what is known when instruction `i` of the top frame is about to execute -/
 structure Exec (P : Program) (H : List FuncHints) (h : FuncHints) (fr0 : Frame) (mark : Nat) (i : Instr) (rest : List Instr)
     (bl : Block) (pre : List Instr) : Prop where
   hb : fr0.f.blocks[fr0.blk]? = some bl
   hi : bl.instrs = pre ++ i :: rest
-  ic : IC P H h (popI fr0 rest) mark (Side.defMask (Side.defSets fr0.f) fr0.f fr0.blk pre.length) i
+  ic : IC P H h (popI fr0 rest) mark (Side.defMask (Side.defSets fr0.f) (blockOffsets fr0.f.blocks 0) fr0.blk pre.length) i
   side : SideI (pc P H fr0.f h) (Side.defSets fr0.f) (blockOffsets fr0.f.blocks 0) fr0.blk pre.length i
 
 theorem instrAt_of_split {f : Func} {blk : Nat} {bl : Block} {pre rest : List Instr} {i : Instr}
@@ -47,7 +79,7 @@ theorem exec_of_inv (F : Facts P H) {fr0 : Frame} {mark : Nat} {i : Instr} {rest
       paramsSized := fun k p a hp ha => (inv.params k p a hp ha).1,
       defd := by
         intro id hbit j hj hdv
-        have hds : DefSet fr0.f fr0.blk pre id := (testBit_defMask hb hi id).1 hbit
+        have hds : DefSet fr0.f fr0.blk pre id := (testBit_defMask (ids_of_block F inv.hf inv.hh hb hi) id).1 hbit
         exact hdef id hds (by simp) j hj hdv
       self := hself,
       glob := fun g hg => globalsInRange_mem hside.glob g hg,
